@@ -1,3 +1,119 @@
-namespace Knut
-def hello : Nat := 1
-end Knut
+/-!
+# Decimal amounts as exact rationals
+
+`shopspring/decimal` values are modelled by their *value* in `Rat` (core Lean).  All
+operations knut uses are functions of the value:
+
+* `Add/Sub/Mul/Neg/Cmp/Equal/IsZero/Sign`  – exact field operations / comparisons
+* `Truncate(n)`        – `trunc n`  (toward zero)
+* `Round(n)`           – `roundHalfAway n`
+* `Div`                – `div16 a b = roundHalfAway 16 (a / b)` (`DivisionPrecision = 16`)
+* `QuoRem(b, p)`       – `quoRem a b p = (trunc p (a / b), a - trunc p (a / b) * b)`, panics for `b = 0`
+* `String()`           – `showDec`   (shortest plain decimal, trailing zeros trimmed)
+* `StringFixed(n)`     – `showFixed n`
+* `NewFromString`      – `parseDec`  (plain `-?digits(.digits)?` as the journal grammar produces)
+-/
+namespace Knut.Dec
+
+def pow10 (n : Nat) : Int := (10 : Int) ^ n
+
+/-- scaled numerator `⌊r · 10^n⌋` toward zero -/
+def scaledTrunc (n : Nat) (r : Rat) : Int := Int.tdiv (r.num * pow10 n) r.den
+
+/-- `Truncate(n)`: drop digits after the `n`-th decimal place (toward zero) -/
+def trunc (n : Nat) (r : Rat) : Rat := mkRat (scaledTrunc n r) (10 ^ n)
+
+/-- numerator of `r · 10^n` rounded half away from zero -/
+def scaledRound (n : Nat) (r : Rat) : Int :=
+  let num := r.num * pow10 n
+  let q := Int.tdiv num r.den
+  let rem := num - q * r.den        -- same sign as num, |rem| < den
+  if 2 * rem.natAbs ≥ r.den then (if r.num < 0 then q - 1 else q + 1) else q
+
+/-- `Round(n)` for `n ≥ 0` -/
+def roundHalfAway (n : Nat) (r : Rat) : Rat := mkRat (scaledRound n r) (10 ^ n)
+
+/-- `Round(places)` for any `places : Int` (negative: round to tens, hundreds, …) -/
+def roundPlaces (places : Int) (r : Rat) : Rat :=
+  if 0 ≤ places then roundHalfAway places.toNat r
+  else
+    let k := (-places).toNat
+    let m := scaledRound 0 (r / (pow10 k : Int))
+    ((m * pow10 k : Int) : Rat)
+
+/-- `Div` of shopspring: `DivRound(_, 16)` -/
+def div16 (a b : Rat) : Rat := roundHalfAway 16 (a / b)
+
+/-- `QuoRem(b, p)`; `none` is the "decimal division by 0" panic -/
+def quoRem (a b : Rat) (p : Nat) : Option (Rat × Rat) :=
+  if b = 0 then none else
+    let q := trunc p (a / b)
+    some (q, a - q * b)
+
+/-- smallest `k ≤ fuel` with `den ∣ 10^k` (the number of decimal places of a decimal rational) -/
+def findScale (den : Nat) : Nat → Nat → Nat
+  | 0, k => k
+  | fuel + 1, k => if (10 ^ k) % den = 0 then k else findScale den fuel (k + 1)
+
+def scaleOf (r : Rat) : Nat := findScale r.den r.den 0
+
+def natDigits (n : Nat) : String := toString n
+
+def padLeftZeros (s : String) (width : Nat) : String :=
+  String.ofList (List.replicate (width - s.length) '0') ++ s
+
+/-- plain decimal with exactly `k` fractional digits of the integer `m / 10^k` -/
+def showScaled (m : Int) (k : Nat) : String :=
+  let neg := m < 0
+  let a := m.natAbs
+  let ip := a / 10 ^ k
+  let fp := a % 10 ^ k
+  let body := if k = 0 then natDigits ip else natDigits ip ++ "." ++ padLeftZeros (natDigits fp) k
+  if neg then "-" ++ body else body
+
+/-- `String()`: shortest plain decimal representation -/
+def showDec (r : Rat) : String :=
+  let k := scaleOf r
+  showScaled (r.num * pow10 k / r.den) k
+
+/-- `StringFixed(places)` -/
+def showFixed (places : Int) (r : Rat) : String :=
+  if 0 ≤ places then showScaled (scaledRound places.toNat r) places.toNat
+  else showScaled (roundPlaces places r).num 0
+
+def isDigit (c : Char) : Bool := '0' ≤ c && c ≤ '9'
+
+def digitsToNat (cs : List Char) : Nat := cs.foldl (fun acc c => acc * 10 + (c.toNat - '0'.toNat)) 0
+
+/-- `-?digits(.digits)?` (what the journal grammar admits). -/
+def parseDec (s : String) : Option Rat :=
+  let cs := s.toList
+  let (neg, cs) := match cs with
+    | '-' :: rest => (true, rest)
+    | _ => (false, cs)
+  let ip := cs.takeWhile isDigit
+  let rest := cs.dropWhile isDigit
+  if ip.isEmpty then none else
+  match rest with
+  | [] =>
+    let v : Int := digitsToNat ip
+    some ((if neg then -v else v : Int) : Rat)
+  | '.' :: fp =>
+    if fp.isEmpty || !fp.all isDigit then none else
+    let v : Int := digitsToNat (ip ++ fp)
+    some (mkRat (if neg then -v else v) (10 ^ fp.length))
+  | _ => none
+
+/-- wire format of the driver: `num/den` -/
+def showRat (r : Rat) : String := s!"{r.num}/{r.den}"
+
+def parseRat (s : String) : Option Rat :=
+  match (s.split (· == '/')).toList.map (·.toString) with
+  | [n] => n.toInt?.map (fun (i : Int) => (i : Rat))
+  | [n, d] => do
+    let n ← n.toInt?
+    let d ← d.toNat?
+    if d = 0 then none else some (mkRat n d)
+  | _ => none
+
+end Knut.Dec
